@@ -33,11 +33,20 @@ RULE = ("prog: 2..6 flows, each waits for `match E(<subset of the payload, occas
         "(UserIntentLog, StopFlow of no flow), start of a helper flow, await of a flow that ends at once; the action is wrapped in 0..3 flows (say<d> / emit<d>); 25% of them are triggered "
         "by an action event (UtteranceUserAction.Finished) instead of E; 20% of the declared priorities override an earlier priority statement; 30% are ROUNDS programs: the flows end after "
         "their action and are activated (or loop in `while True`), and 1..2 further events with the same keys and re-drawn values follow — every round is judged. For every run_to_completion call "
-        "of a program the skeleton of the main loop is recorded and replayed on the Lean loop model (C05.round).")
+        "of a program the skeleton of the main loop is recorded and replayed on the Lean loop model (C05.round). Phase 6: 14% internal-trigger programs (g_prog_internal): the "
+        "competing flows are observers / interceptors of an INTERNAL event — `match StartFlow(flow_id=\"tgt\")`, `match StartFlow(<parameters>)` (start of any flow), "
+        "`match FlowStarted/FlowFinished/FlowFailed(flow_id=\"tgt\", <parameters>)`, `match tgt(<all parameters>).Started()/.Finished()/.Failed()`, `match $ref.Finished()/.Failed()`, "
+        "`match UnhandledEvent(event=\"E\", <parameters>)` — set off by the external event (trigger flow starts tgt / tgt waits for E and ends or aborts / nobody handles E), with declared "
+        "priorities and specificities of their own, all shapes / wait constructs / pre statements / wrappers of the path programs, 30% of the trigger-flow programs with ROUNDS (a new tgt "
+        "instance per round). In every program run every positive score computed under a flow priority is re-computed without it (score = priority x unscaled score), tagged "
+        "`score:<branch>:prio-declared|prio-default` with the branch names enumerated from the source (harness/translate/c05.py). bscore: 1 500 / 30 000 (event, reference event) pairs built per "
+        "branch (flow-id start, any-flow start, internal, external, action event) scored with and without a priority by the real function, against Lean eventScore / scoreBranch / scaleBy (C05.bscore).")
 TRUSTED_BASE = [
     "record/replay harness harness/props/C05.py (recorders around _resolve_action_conflicts/_abort_flow/random.choice, rank mapping of floats, "
     "event keys = canonical JSON of name+arguments; phase 5: recorders around _advance_head_front / _process_internal_events_without_default_matchers that classify the "
     "calls of the main loop as event / merge pass / advance and count the pushed internal events) + Lean driver Drive/C05.lean",
+    "translator harness/translate/c05.py (branch chain of _compute_event_comparison_score by AST path: StartFlow test with the flow_id split, InternalEvents.ALL test, else; "
+    "every exit other than the final `return match_score` returns a non-positive constant; the last step is `if priority: match_score *= priority`)",
     "CPython: `sorted` is stable also with reverse=True, list comparison is lexicographic, dict iteration is insertion ordered; float comparison "
     "(the model sees ranks of the floats that occur in a call, an order isomorphism)",
 ]
@@ -255,6 +264,12 @@ def g_prog_internal(rng):
             f["pat"] = dict(f["pat"], **{rng.choice(list(payload)): 3})  # does not fit
             if w and w["kind"] in ("and", "await_and"):
                 w["alt"] = dict(f["pat"])
+        if kind == "startflow_id":
+            # a start is matched by flow id only: the pattern is empty, a flow that does not fit watches another flow id
+            f["nofit"] = any(v == 3 for v in f["pat"].values())
+            f["pat"] = {}
+            if w and isinstance(w.get("alt"), dict):
+                w["alt"] = {}
         flows.append(f)
     # at least two declared priorities differ in most programs: priority is the only way to rank equally specific observers
     if rng.random() < 0.5:
@@ -273,6 +288,11 @@ def g_prog_internal(rng):
         case["mode"] = "start"
     if rng.random() < 0.3:
         case["args2"] = True
+    if (via == "trig" or kind == "unhandled") and kind != "flowfailed" and rng.random() < 0.3:
+        # ROUNDS: the same observers react to the internal event again (a new instance of tgt is started with re-drawn parameter values)
+        make_rounds(rng, case)
+        for f in flows:
+            f["iform"] = "bare" if f["iform"] == "ref" else f["iform"]
     for f in flows:
         if f["prio"] and rng.random() < 0.15:
             f["prio0"] = rng.choice(["0.3", "0.95", "1.0"])
@@ -616,8 +636,8 @@ def int_match_expr(case, f, argstr):
     args = argstr.strip()
     sep = ", " if args else ""
     if kind == "startflow_id":
-        # the other parameters take no part in a match on a flow id: the pattern only decides WHICH flow is watched
-        return 'StartFlow(flow_id="tgt")' if _pat_fits(case, _parse_pat(args)) else 'StartFlow(flow_id="nosuchflow")'
+        # the other parameters take no part in a match on a flow id
+        return 'StartFlow(flow_id="nosuchflow")' if f.get("nofit") else 'StartFlow(flow_id="tgt")'
     if kind == "startflow_any":
         return f"StartFlow({args})"
     if kind == "unhandled":
@@ -643,6 +663,14 @@ def trigger_flows(case):
         body = "  match E()\n" + ("  abort\n" if it["kind"] == "flowfailed" else "")
         return [f"flow tgt{params}\n{body}"], [f"  start {call} as $t\n"], []
     body = "  $d = 1\n" if it["kind"] == "flowfinished" else "  match Never()\n"
+    if case.get("rounds"):
+        # one trigger flow per round: event E(rd=k) starts a new instance of tgt with the parameter values of round k
+        trigs, starts = [], []
+        for k, pl in enumerate([pay] + list(case["rounds"])):
+            callk = "tgt(" + ", ".join(f"{a}={v}" for a, v in pl.items()) + ")"
+            trigs.append(f"flow trig{k}\n  match E(rd={k})\n  start {callk}\n  match Never()\n")
+            starts.append(f"  start trig{k}\n")
+        return [f"flow tgt{params}\n{body}"] + trigs, [], starts
     return [f"flow tgt{params}\n{body}", f"flow trig\n  match E()\n  start {call}\n  match Never()\n"], [], ["  start trig\n"]
 
 
@@ -965,6 +993,9 @@ def run_prog(case):
         events += [{"type": "F"}, {"type": "G"}]
     for pl in case.get("rounds", []):
         events.append(dict({"type": etype}, **pl))
+    if case.get("itrig") and case.get("rounds") and case["itrig"]["kind"] != "unhandled":
+        for k, e in enumerate(events):
+            e["rd"] = k  # the round's trigger flow starts tgt with the round's parameter values
     seen_sig = set()
     # "tree": systematic exploration of the tie-break tree — every run reports the candidate count of each random.choice
     # call; for every call beyond the forced prefix with n > 1 candidates the alternatives 1..min(n,4)-1 are scheduled.
@@ -1603,6 +1634,8 @@ def fits(case, f):
         return False  # waits for another event: the first event must leave it untouched
     if f["prio"] and float(f["prio"]) == 0.0:
         return False  # declared priority 0.0: every match of the flow is scaled to 0.0 = no match
+    if f.get("nofit"):
+        return False  # watches the start of another flow
     w = f.get("wait") or {}
     if w.get("kind") == "or" and isinstance(w.get("alt"), dict) and _pat_fits(case, w["alt"]):
         return True
